@@ -75,46 +75,24 @@ def run(ctx):
                     display = "-".join(p.capitalize() for p in k.split("-"))
                     obj[display] = recs[0] if single else recs
                     model[k] = (display, order, recs, single)
-                try:
-                    text = obj.dump()
-                except Exception as e:
-                    t.failed("dump raised %r" % (e,), cls=cname, present=subset, records={k: v[2] for k, v in model.items()})
-                    break
-                exp = "Origin: x\n"
-                for k in subset:
-                    display, order, recs, single = model[k]
-                    if cname.startswith("Release"):
-                        width = 16 if behaviour == "apt-ftparchive" else max(len(r["size"]) for r in recs)
-                    elif cname == "PdiffIndex":
-                        width = None if single else max(len(r["size"]) for r in recs)
-                    else:
-                        width = None
-                    exp += expected_field_text(display, order, recs, width, single)
-                t.case(key=(cname, tuple(subset), text))
-                if text != exp:
-                    t.failed("dump text differs from the documented layout (alignment / ordering / separators)", cls=cname,
-                             present=subset, dump=text, expected=exp)
-                    break
-                try:
-                    back = cls(text)
-                    if behaviour:
-                        back.size_field_behavior = behaviour
-                    again = back.dump()
-                except Exception as e:
-                    t.failed("re-parse / second dump raised %r" % (e,), cls=cname, present=subset, dump=text)
-                    break
-                for k in subset:
-                    display, order, recs, single = model[k]
-                    got = back[display]
-                    got_recs = [dict(got)] if single else [dict(r) for r in got]
-                    names_ok = all(list(r.keys()) == order for r in ([got] if single else got))
-                    if got_recs != recs or not names_ok:
-                        t.failed("re-parsed records differ", cls=cname, field=display, got=got_recs, expected=recs, dump=text)
+                # second round on the same object: one record of a multi-record field swapped for one with a longer size
+                # (same record count), the field re-assigned - what the first dump measured must not be reused
+                for round_ in (0, 1):
+                    if round_ == 1:
+                        multi = [k for k in subset if not model[k][3]]
+                        if not multi or "size" not in mv[multi[0]]:
+                            break
+                        k = rng.choice(multi)
+                        display, order, recs, single = model[k]
+                        longest = max(len(r["size"]) for kk in subset for r in model[kk][2] if "size" in r)
+                        newrec = dict(rng.choice(recs), size="9" * (longest + rng.randint(1, 3)))
+                        recs = list(recs)
+                        recs[rng.randrange(len(recs))] = newrec
+                        model[k] = (display, order, recs, single)
+                        obj[display] = recs
+                    if check_dump(t, cls, cname, behaviour, obj, subset, model, second=(round_ == 1)):
                         break
                 if t.fail:
-                    break
-                if again != text:
-                    t.failed("dump of the re-parsed paragraph differs", cls=cname, present=subset, dump=text, second=again)
                     break
             if t.fail:
                 break
@@ -126,6 +104,50 @@ def run(ctx):
     ctx.explanation = "BOUNDED ONLY in this revision (see module docstring)."
     ctx.assumptions += ["record lists are non-empty (an empty list formats to an empty value, which parses back as a single-line "
                         "empty mapping: outside 'any list of records')"]
+
+
+def check_dump(t, cls, cname, behaviour, obj, subset, model, second=False):
+    """dump obj and compare with the documented text and the records of `model`; True when a failure was recorded"""
+    try:
+        text = obj.dump()
+    except Exception as e:
+        t.failed("dump raised %r" % (e,), cls=cname, present=subset, records={k: v[2] for k, v in model.items()})
+        return True
+    exp = "Origin: x\n"
+    for k in subset:
+        display, order, recs, single = model[k]
+        if cname.startswith("Release"):
+            width = 16 if behaviour == "apt-ftparchive" else max(len(r["size"]) for r in recs)
+        elif cname == "PdiffIndex":
+            width = None if single else max(len(r["size"]) for r in recs)
+        else:
+            width = None
+        exp += expected_field_text(display, order, recs, width, single)
+    t.case(key=(cname, tuple(subset), text))
+    if text != exp:
+        t.failed("dump text differs from the documented layout (alignment / ordering / separators)", cls=cname,
+                 present=subset, dump=text, expected=exp, second_dump_after_replacing_a_record=second)
+        return True
+    try:
+        back = cls(text)
+        if behaviour:
+            back.size_field_behavior = behaviour
+        again = back.dump()
+    except Exception as e:
+        t.failed("re-parse / second dump raised %r" % (e,), cls=cname, present=subset, dump=text)
+        return True
+    for k in subset:
+        display, order, recs, single = model[k]
+        got = back[display]
+        got_recs = [dict(got)] if single else [dict(r) for r in got]
+        names_ok = all(list(r.keys()) == order for r in ([got] if single else got))
+        if got_recs != recs or not names_ok:
+            t.failed("re-parsed records differ", cls=cname, field=display, got=got_recs, expected=recs, dump=text)
+            return True
+    if again != text:
+        t.failed("dump of the re-parsed paragraph differs", cls=cname, present=subset, dump=text, second=again)
+        return True
+    return bool(t.fail)
 
 
 def replay(ctx, data):
